@@ -280,7 +280,7 @@ class Engine:
         v = self.get_path(self.mem[t.obj], t.path)
         if t.idx is not None:
             if type(v) is ZA:
-                return z3.Select(v.arr, t.idx)
+                return v.read(t.idx)
             raise Inconclusive("indexed read of non-ZA")
         return v
 
@@ -320,8 +320,7 @@ class Engine:
             def upd(old):
                 if type(old) is not ZA:
                     raise Inconclusive("indexed write of non-ZA")
-                nv = val if is_true(cc) else zif(cc, val, z3.Select(old.arr, t.idx))
-                return ZA(z3.Store(old.arr, t.idx, nv), old.n)
+                return old.write(t.idx, val, cc)
         else:
             def upd(old):
                 return ite(cc, val, old)
@@ -1078,7 +1077,7 @@ class Engine:
         pos = ins.get("pos", "")
         if type(x) is ZA:
             self.oblige("bounds", z3.ULT(idx, bv(x.n)), pos=pos)
-            return z3.Select(x.arr, idx)
+            return x.read(idx)
         if type(x) is AV:
             self.oblige("bounds", z3.ULT(idx, bv(len(x.e))), pos=pos)
             si = z3.simplify(idx)
@@ -1556,7 +1555,7 @@ class Engine:
                 if t is None:
                     continue
                 a = self.get_path(self.mem[t.obj], t.path)
-                arr = a.arr if arr is None else zif(c, a.arr, arr)
+                arr = a.flush() if arr is None else zif(c, a.flush(), arr)
             if arr is None:
                 arr = z3.K(BV64, bv(0, bits))
                 off = bv(0)
